@@ -3,36 +3,62 @@
 Scenario encoding (TLC export / recorded traces):
   edges   sequence of per-dimension edge sequences (rank-abstracted integers)
   nested  1-dimensional edges given as [[..]] (argument is a 1-tuple) instead of [..]
-  flow    sequence of [x |-> coordinates, h |-> has a context]; the value at position i (1-based) is
-          data = (i, x or (x, y)), context = {"src": i}
+  flow    sequence of [x |-> coordinates, h |-> has a context, p |-> is a pair, f |-> "none" or the name of
+          the exception the inner analysis raises on it]; the value at position i (1-based) is
+          data = (i, x or (x, y)), context = {"src": i}; a value the analysis cannot digest is the
+          malformed record data = (i, x, f)
   kind    name of the inner analysis (KINDS)
 A per-cell result is [t |-> tag, ids |-> positions of the values of the cell in arrival order (after the
 pre-element), src |-> position of the last value with a context seen by the accumulator (0: none),
-mut |-> what the context-mutating pre-element wrote last (0: nothing)].
+mut |-> what the context-mutating pre-element wrote last (0: nothing); for the analysis "log": the counter
+its post-element keeps in the context object the accumulator yields].
 """
 import copy
 
 PRE_SHIFT = 100          # the "shift" pre-element maps position i to i + PRE_SHIFT
 
 
+def exc_class(name):
+    import lena.core
+    return {"IndexError": IndexError, "LenaIndexError": lena.core.LenaIndexError, "KeyError": KeyError,
+            "TypeError": TypeError, "ValueError": ValueError}[name]
+
+
+def digest(data):
+    """What the first element of every harness analysis does with a record it cannot digest."""
+    if len(data) > 2:
+        raise exc_class(data[2])("malformed record %r" % (data[0],))
+
+
+def picky(value):
+    """Pre-element (a Call) that raises on a malformed record and passes everything else unchanged."""
+    import lena.flow
+    digest(lena.flow.get_data(value))
+    return value
+
+
 # ------------------------------------------------------------------ inner analysis elements
 class Collect(object):
     """Accumulator: remembers the positions of the values filled and the context of the last one."""
 
-    def __init__(self, tag="c", results=1, only_nonempty=False, per_value=False):
+    def __init__(self, tag="c", results=1, only_nonempty=False, per_value=False, own_ctx=False):
         self.tag, self.results = tag, results
         self.only_nonempty, self.per_value = only_nonempty, per_value
+        self.own_ctx = own_ctx         # compute() yields the context object itself, not a copy
         self.ids = []
         self.ctx = {}
 
     def fill(self, value):
         import lena.flow
         data, context = lena.flow.get_data_context(value)
+        digest(data)
         self.ids.append(data[0])
         if context:
             self.ctx = copy.deepcopy(context)
 
     def _ctx(self):
+        if self.own_ctx:
+            return self.ctx
         return copy.deepcopy(self.ctx)
 
     def compute(self):
@@ -94,11 +120,20 @@ class PostTag(object):
                 yield (("q" + tag, ids), copy.deepcopy(context))
 
 
+def log_in_place(value):
+    """Post-element that counts, in the context object it is given (in place), how often it has seen it."""
+    import lena.flow
+    data, context = lena.flow.get_data_context(value)
+    context["mut"] = context.get("mut", 0) + 1
+    return (data, context)
+
+
 MAPS = {"tag": lambda: PostTag(), "dup": lambda: PostTag(dup=True), "drop": lambda: PostTag(drop_empty=True),
         "seen": lambda: PostTag(count=True), "src": lambda: PostTag(use_src=True)}
 
 
-KINDS = ("collect", "collect2", "nonempty", "pervalue", "shift", "mutate", "post", "postdup")
+KINDS = ("collect", "collect2", "nonempty", "pervalue", "shift", "mutate", "post", "postdup", "seen", "log")
+STATEFUL = ("seen", "log")      # compute() changes the analysis itself
 
 
 def elements(kind):
@@ -118,14 +153,28 @@ def elements(kind):
         return (Collect(), PostTag())
     if kind == "postdup":
         return (Collect(results=2), PostTag(dup=True))
+    if kind == "seen":
+        return (Collect(), PostTag(count=True))
+    if kind == "log":
+        return (Collect(own_ctx=True), log_in_place)
     raise ValueError(kind)
 
 
-def make_seq(kind, bare=False):
+def elements_for(kind, guard):
+    """*guard*: the record check is an element of its own in front (otherwise the first element does it;
+    an analysis whose first element writes into the context is always guarded, so that a rejected value
+    is left untouched)."""
+    els = elements(kind)
+    if guard or kind == "mutate":
+        return (picky,) + els
+    return els
+
+
+def make_seq(kind, bare=False, guard=False):
     """The inner analysis as passed to SplitIntoBins: a FillComputeSeq, or (bare=True, one element
     only) the element itself, which SplitIntoBins converts."""
     import lena.core
-    els = elements(kind)
+    els = elements_for(kind, guard)
     if bare and len(els) == 1:
         return els[0]
     return lena.core.FillComputeSeq(*els)
@@ -154,6 +203,8 @@ def make_values(flow, dim, nested, pairs=None):
         x = list(v["x"])
         coord = x[0] if (dim == 1 and not nested) else tuple(x)
         data = (i + 1, coord)
+        if v.get("f", "none") != "none":
+            data = (i + 1, coord, v["f"])           # a record the inner analysis cannot digest
         if v["h"]:
             val = (data, {"src": i + 1})
         elif v.get("p"):
@@ -173,6 +224,19 @@ def arg_var(dim, typed=False):
             return lena.variables.Variable("x", lambda data: data[1], unit="cm", type="coordinate")
         return lena.variables.Variable("x", lambda data: data[1], unit="cm")
     return lena.variables.Variable("xy", lambda data: data[1], dim=dim)
+
+
+def arg_var_y(dim, style=0):
+    """Another argument variable over the same coordinate(s): other name(s), same routing."""
+    import lena.variables as lv
+    if dim == 1:
+        return lv.Variable("y", lambda data: data[1], unit="cm")
+    if style == 0:
+        return lv.Combine(lv.Variable("u", lambda data: data[1][0]), lv.Variable("v", lambda data: data[1][1]),
+                          name="uv")
+    if style == 2:
+        return lv.Variable("uv", lambda data: list(data[1]), dim=2)
+    return lv.Variable("uv", lambda data: data[1], dim=2)
 
 
 def enc_result(res):
@@ -228,6 +292,8 @@ class Worst(object):
 
 def scen_text(rec):
     xs = [v["x"][0] if len(v["x"]) == 1 else tuple(v["x"]) for v in rec["flow"]]
+    if any(v.get("f", "none") != "none" for v in rec["flow"]):
+        xs = [x if v.get("f", "none") == "none" else "%s!%s" % (x, v["f"]) for x, v in zip(xs, rec["flow"])]
     e = in_form(rec["edges"][0] if len(rec["edges"]) == 1 else rec["edges"], rec.get("form", "l"))
     return "edges=%s;x=%s;analysis=%s" % (str(e).replace(" ", ""), str(xs).replace(" ", ""), rec["kind"])
 
